@@ -1001,7 +1001,8 @@ def f_units_name_dup(w, r, g):
     first = [x for x in m.units if x is a or x is b][0]
     # (whichever of the two is validated first decides the rule; references by name may visit one earlier: both accepted)
     return {"where": "units/" + idx_class(m.units, a) + "+" + idx_class(m.units, b) + ("/imported" if (a.imp or b.imp) else ""),
-            "cite": ["IMPORT_UNITS_NAME_UNIQUE", "UNITS_NAME_UNIQUE"], "renamed": old}
+            "cite": (["IMPORT_UNITS_NAME_UNIQUE", "UNITS_NAME_UNIQUE"] if first.imp else ["UNITS_NAME_UNIQUE", "IMPORT_UNITS_NAME_UNIQUE"]),
+            "renamed": old}
 
 
 def f_import_units_dup(w, r, g):
@@ -1571,3 +1572,86 @@ def inject(world, fault, rng, gen):
         return None
     info["fault"] = fault
     return w, info
+
+
+# ---- faults inside imported items (the library models of the world)
+
+def _lib_units_targets(w):
+    out = []
+    for u in imported_units(w[0]):
+        s, ref = u.imp
+        if s.model is not None:
+            for t in w[s.model].units:
+                if t.name == ref:
+                    out.append((u, w[s.model], t))
+                    break
+    return out
+
+
+def _find_comp(m, name):
+    for c in m.comps:
+        if c.name == name:
+            return c
+    for c in m.all_comps():
+        for k in c.kids:
+            if k.name == name:
+                return k
+    return None
+
+
+def _lib_comp_targets(w):
+    out = []
+    for c in imported_comps(w[0]):
+        s, ref = c.imp
+        if s.model is not None:
+            t = _find_comp(w[s.model], ref)
+            if t is not None:
+                out.append((c, w[s.model], t))
+    return out
+
+
+def f_lib_units(w, r, g):
+    p = _choice(r, _lib_units_targets(w))
+    if p is None:
+        return None
+    u, lm, t = p
+    kind = r.choice(["unit-reference", "id", "prefix"])
+    if kind == "id":
+        t.id = r.choice(BAD_XMLNAMES)
+        return {"where": "imported-units/id", "cite": ["XML_ID_ATTRIBUTE"]}
+    if not t.items:
+        t.items.append(Item("second"))
+    it = r.choice(t.items)
+    if kind == "unit-reference":
+        it.ref = "no_such_units_defined"
+        return {"where": "imported-units/unit-reference", "cite": ["UNIT_UNITS_REFERENCE"]}
+    it.prefix = r.choice(BAD_PREFIXES)
+    return {"where": "imported-units/prefix", "cite": ["UNIT_ATTRIBUTE_PREFIX_VALUE"]}
+
+
+def f_lib_comp(w, r, g):
+    p = _choice(r, _lib_comp_targets(w))
+    if p is None:
+        return None
+    c, lm, t = p
+    deep = bool(t.kids) and r.random() < 0.5
+    tgt = r.choice(t.kids) if deep else t
+    loc = "child-of-imported-component" if deep else "imported-component"
+    if not tgt.vars:
+        tgt.vars.append(Var(fresh_tag(w), "lv", "second"))
+    v = r.choice(tgt.vars)
+    kind = r.choice(["variable-name", "variable-units", "math-ci", "id"])
+    if kind == "variable-name":
+        v.name = r.choice(BAD_IDENTS)
+        return {"where": loc + "/variable-name", "cite": ["VARIABLE_NAME_VALUE"]}
+    if kind == "variable-units":
+        v.units = "no_such_units_defined"
+        return {"where": loc + "/variable-units", "cite": ["VARIABLE_UNITS_VALUE"]}
+    if kind == "id":
+        v.id = r.choice(BAD_XMLNAMES)
+        return {"where": loc + "/variable-id", "cite": ["XML_ID_ATTRIBUTE"]}
+    tgt.math = [E("math", [E("apply", [E("eq"), E("ci", [T(v.name)]), E("ci", [T("no_such_variable")])])])]
+    return {"where": loc + "/math-ci", "cite": ["MATH_CI_VARIABLE_REFERENCE"]}
+
+
+FAULTS += [("imported-units-content", f_lib_units), ("imported-component-content", f_lib_comp)]
